@@ -479,7 +479,10 @@ class MarkdownNormalizer(Renderer):
         fence_len = max(original_fence_len, min_fence_len)
         fence = fence_char * fence_len
 
-        lines = [f"{self._prefix}{fence}{lang_text}"]
+        # An info string that starts with the fence character (possible after "~~~") must
+        # not run into the fence, which would lengthen the fence instead.
+        info_sep = " " if lang_text.startswith(fence_char) else ""
+        lines = [f"{self._prefix}{fence}{info_sep}{lang_text}"]
         # Don't add prefix to empty lines to avoid trailing whitespace.
         # Use rstrip() to preserve structural prefixes like ">" for blockquotes.
         empty_line_prefix = self._second_prefix.rstrip()
